@@ -48,6 +48,7 @@ func runC07(c *Ctx) {
 	c.rule("V2", "closeableResource.closed / .closeableResource are read under at least the read lock and written under the write lock of closeableResource.mu", 4)
 	c.rule("V3", "the guard returns an ErrCondition-kind error exactly on the IsClosed()==true side; no guarded function returns a nil error on the guard's failing side", 30)
 	c.rule("V4", "NewZipFileSystem/NewTarFileSystem give the opened archive file to the filesystem as its closeable resource; the constructor wraps it; VFS.Close closes it", 4)
+	c.rule("V8", "VFS.Close returns the outcome of closing its resource unfiltered (converted only): no kind of failure is turned into success", 1)
 	c.rule("V5", "closeableResource.Close sets closed=true before every nil return; IsClosed returns that flag", 2)
 	c.rule("Z1", "zip walker: entry name = filepath.Rel(source, path) (+\"/\" for directories), Modified = info.ModTime(), content = the opened path copied whole into the entry writer", 5)
 	c.rule("Z3", "unzip: the name joined to the destination is the entry's zip.FileHeader.Name itself (charset transcoding aside)", 1)
@@ -300,6 +301,49 @@ func (c *Ctx) c07Wiring() {
 			}
 		})
 		c.check(good, "V4", fname(f), c.pos(f.Pos()), "VFS.Close closes resourceInUse", "VFS.Close no longer closes the filesystem's resource")
+		// V8: "once closed serve nothing any more". The resource only marks itself closed where closing it succeeded (V5);
+		// a Close() of the filesystem that turns a failure of the resource into success reports a filesystem as closed that
+		// goes on serving. What VFS.Close returns is what the resource returned, converted — nothing is filtered out.
+		bad := ""
+		allInstrs(f, func(in ssa.Instruction) {
+			r, ok := in.(*ssa.Return)
+			if !ok || len(r.Results) != 1 {
+				return
+			}
+			var walk func(v ssa.Value, depth int)
+			walk = func(v ssa.Value, depth int) {
+				if depth > 6 || bad != "" {
+					return
+				}
+				switch x := stripConv(v).(type) {
+				case *ssa.Call:
+					if x.Call.IsInvoke() && x.Call.Method.Name() == "Close" {
+						return
+					}
+					n := calleeFull(&x.Call)
+					if strings.HasSuffix(n, "filesystem.ConvertFileSystemError") || strings.HasSuffix(n, "commonerrors.ConvertContextError") {
+						walk(x.Call.Args[0], depth+1)
+						return
+					}
+					bad = short(n) + " at " + c.ipos(x)
+				case *ssa.Phi:
+					for _, e := range x.Edges {
+						if isNilConst(e) {
+							bad = "a nil merged in at " + c.ipos(x)
+							return
+						}
+						walk(e, depth+1)
+					}
+				case *ssa.Const:
+					if x.IsNil() {
+						bad = "a constant nil at " + c.ipos(r)
+					}
+				}
+			}
+			walk(r.Results[0], 0)
+		})
+		c.check(bad == "", "V8", fname(f)+"/outcome-unfiltered", c.pos(f.Pos()), "VFS.Close returns the (converted) outcome of closing the resource",
+			"what VFS.Close returns goes through "+bad+": a failure to close the resource — it does not mark itself closed then (see V5) — can come out as success, and a filesystem reported closed keeps serving Stat, Ls and (for the tar view) contents")
 	}
 }
 
